@@ -14,7 +14,7 @@ THEOREMS = ["Cxx.C04_well_nested", "Cxx.C04_parse_start_first", "Cxx.C04_fault_t
             "Cxx.C04_parser_well_nested", "Cxx.C04_parser_fault", "Cxx.fault_sim", "Cxx.nest_sim", "Cxx.interp_extends", "Cxx.C04_each_payload_stored_once", "Cxx.C04_block_end", "Cxx.C04_toplevel_block_end",
     "Cxx.C04_namespace_block",
     "Cxx.C04_extern_block",
-, "Cxx.C04_whole_source_fault"]
+    "Cxx.C04_whole_source_fault"]
 ANCHORS = ["parser.py:CxxParser._setup_state", "parser.py:CxxParser._pop_state", "parser.py:CxxParser.parse", "parser.py:CxxParser.__init__",
            "parser.py:CxxParser._on_block_end", "parser.py:CxxParser._parse_namespace", "parser.py:CxxParser._parse_extern", "parser.py:CxxParser._parse_class_decl",
            "parser.py:CxxParser._consume_balanced_tokens", "parser.py:CxxParser._consume_value_until", "parser.py:CxxParser._discard_contents",
